@@ -1,4 +1,5 @@
 import Holpy.C13.Props
+import Holpy.C13.RevertModel
 /-
 C13 — property theorems, second file: what `remove_line` does to a line that is cited.
 `ProofState.remove_line` does not check that the line is not cited (it neither refuses nor leaves a
@@ -30,5 +31,39 @@ theorem remove_line_cited_retargets_counterexample :
     ∃ s', removeLine c1 [0] = .ok s' ∧ wf s' = true ∧
       (findItem s' [1]).map Item.prevs = some [[0]] ∧ (findItem s' [0]).map Item.th = some (some ⟨2, []⟩) :=
   ⟨by decide, rfl, _, rfl, by decide, rfl, rfl⟩
+
+/-- The two callers of `remove_line`.  `replace_id(old, new)`: when the removal is reached, no line
+of the proof that contains `old` (subproofs included) cites `old` any more — the precondition of
+`remove_line_preserves_wf` holds.  Partial: for the second caller, `revert_intro`, the model
+(`revertIntroM`, Holpy/C13/RevertModel.lean, compared with every real `revert_intro` application by
+the stream `method:revert_intro`) has the code's guard `not is_used(...)` (`usedExceptFrom`); that the
+guard together with the two `set_line` calls leaves no citation of the removed assumption is not
+proved here. -/
+theorem remove_line_callers_establish_precondition_partial (s s1 : Proof) (old new : IId) (cur : Item)
+    (hex : findItem s old = some cur) (hvis : canDependOn old new = true)
+    (h1 : modifyAt old.dropLast (fun items => .ok (replaceList old new items)) s = .ok s1) :
+    ∀ l, getAt old.dropLast s1 = some l → notCitedList old l = true := by
+  intro l hl
+  obtain ⟨l0, split, _, hget, _⟩ := findItem_getAt old s cur hex
+  obtain ⟨l1, e1, hg1⟩ := getAt_modifyAt _ old.dropLast s s1 l0 hget h1
+  simp at e1; subst e1
+  rw [hg1] at hl; cases hl
+  have hne : new ≠ old := by
+    intro e; subst e; rw [canDependOn_irrefl] at hvis; simp at hvis
+  exact notCitedList_replace old new hne l0
+
+example : findItem c1 [0] ≠ none ∧ canDependOn [2] [0] = true := by decide
+
+/-- `revert_intro` in the model: `0: assume A; 1: gap; 2: intros from 0, 1` becomes `0: gap; 1: intros from 0` -/
+example : (match revertIntroM [.mk [0] 4 [] (some ⟨1, [1]⟩) false [], .mk [1] ruleSorry [] (some ⟨2, [1]⟩) false [],
+      .mk [2] 5 [[0], [1]] (some ⟨3, []⟩) false []] [1] [0] (some ⟨3, []⟩) 4 5 with
+    | .ok s' => wf s' && s'.length == 2 && (sorrysList s' == [some ⟨3, []⟩])
+    | .error _ => false) = true := by decide
+
+/-- the guard refuses when another line cites the assumption -/
+example : (match revertIntroM [.mk [0] 4 [] (some ⟨1, [1]⟩) false [], .mk [1] 6 [[0]] (some ⟨4, [1]⟩) false [],
+      .mk [2] ruleSorry [] (some ⟨2, [1]⟩) false [], .mk [3] 5 [[0], [2]] (some ⟨3, []⟩) false []] [2] [0] (some ⟨3, []⟩) 4 5 with
+    | .ok _ => false
+    | .error _ => true) = true := by decide
 
 end Holpy.C13
